@@ -325,6 +325,7 @@ fn equal(a: &V, b: &V) -> bool {
 
 const PRIMS: &[&str] = &[
     "=", "<", ">", "<=", ">=", "+", "-", "*", "/", "quotient", "remainder", "modulo", "logand", "logior", "not", "member", "equal?", "string=?",
+    "truncate-quotient", "truncate-remainder", "floor-quotient", "floor-remainder", "euclidean-quotient", "euclidean-remainder", "floor", "ceiling", "round", "truncate",
     "format", "display", "newline", "string", "string-append", "number->string", "make-mutex", "current-output-port", "open-file", "open-output-file",
     "close-port", "strftime", "localtime", "dynamic-wind", "uid", "gid", "ino", "nlink", "size", "blocks", "mode", "atime", "ctime", "mtime",
     "projid", "file-fid", "name", "relative-path", "absolute-path", "user", "group", "type", "type->char", "lov-pools", "lov-stripe-count",
@@ -348,7 +349,7 @@ pub const KNOWN_UNMODELLED: &[&str] = &[
     "list->string", "string->symbol", "symbol->string", "symbol?", "string-split", "string-trim", "string-trim-both", "string-trim-right", "string-pad", "string-pad-right", "string-index",
     "string-rindex", "string-map", "string-for-each", "string-fold", "string-concatenate", "string-reverse", "string-take", "string-drop", "string-count", "string-tokenize", "string-filter",
     "string-delete", "string-replace", "string-ci=?", "string>?", "string<=?", "string>=?", "char<?", "char>?", "char-upcase", "char-downcase", "char-alphabetic?", "char-numeric?", "char-whitespace?",
-    "exact->inexact", "inexact->exact", "exact", "inexact", "round", "floor", "ceiling", "truncate", "floor/", "truncate/", "floor-quotient", "euclidean/", "sqrt", "exp", "log", "sin", "cos",
+    "exact->inexact", "inexact->exact", "exact", "inexact", "floor/", "truncate/", "euclidean/", "sqrt", "exp", "log", "sin", "cos",
     "number?", "real?", "rational?", "exact?", "inexact?", "nan?", "gcd", "lcm", "numerator", "denominator", "bit-extract", "arithmetic-shift",
     "filter", "filter-map", "fold", "fold-right", "reduce", "any", "every", "find", "find-tail", "delete", "delete-duplicates", "remove", "partition", "iota", "last", "last-pair", "list-tail",
     "list-head", "list-copy", "sort", "assoc-ref", "assq-ref", "assv-ref", "acons", "hash-ref", "hash-set!", "make-hash-table", "hashq-ref", "hashq-set!", "caar", "cddr", "cdar", "caddr",
@@ -868,18 +869,56 @@ impl Interp {
                 let d = d1.checked_mul(n2).ok_or_else(|| Self::ovf(name))?;
                 Ok(Self::mkrat(n, d))
             }
-            "quotient" | "remainder" | "modulo" => {
+            "quotient" | "remainder" | "modulo" | "truncate-quotient" | "truncate-remainder" | "floor-quotient" | "floor-remainder" | "euclidean-quotient" | "euclidean-remainder" => {
                 Self::arity(name, a, 2, 2)?;
                 let x = Self::int(&a[0], name)?;
                 let y = Self::int(&a[1], name)?;
                 if y == 0 {
                     return Err(EvalError::Other("Numerical overflow (division by zero)".into()));
                 }
+                // floor division: quotient rounded towards minus infinity, remainder has the sign of the divisor
+                let fq = {
+                    let q = x / y;
+                    if (x % y != 0) && ((x < 0) != (y < 0)) {
+                        q - 1
+                    } else {
+                        q
+                    }
+                };
                 Ok(V::Int(match name {
-                    "quotient" => x / y,
-                    "remainder" => x % y,
+                    "quotient" | "truncate-quotient" => x / y,
+                    "remainder" | "truncate-remainder" => x % y,
+                    "floor-quotient" => fq,
+                    "modulo" | "floor-remainder" => x - fq * y,
+                    "euclidean-quotient" => x.div_euclid(y),
                     _ => x.rem_euclid(y),
                 }))
+            }
+            "floor" | "ceiling" | "round" | "truncate" => {
+                Self::arity(name, a, 1, 1)?;
+                match &a[0] {
+                    V::Int(i) => Ok(V::Int(*i)),
+                    V::Rat(n, d) => {
+                        let (n, d) = (*n, *d); // d > 0
+                        let fl = n.div_euclid(d);
+                        let r = n.rem_euclid(d);
+                        Ok(V::Int(match name {
+                            "floor" => fl,
+                            "ceiling" => fl + if r != 0 { 1 } else { 0 },
+                            "truncate" => if n < 0 && r != 0 { fl + 1 } else { fl },
+                            _ => {
+                                // round half to even
+                                let twice = 2 * r;
+                                if twice > d || (twice == d && fl % 2 != 0) {
+                                    fl + 1
+                                } else {
+                                    fl
+                                }
+                            }
+                        }))
+                    }
+                    other => Err(EvalError::Type(format!("{}: not a number: {}", name, display_string(other)))),
+                }
             }
             "logand" | "logior" => {
                 let mut acc: i128 = if name == "logand" { -1 } else { 0 };
